@@ -20,10 +20,12 @@ import time
 import traceback
 
 VERIF = os.path.dirname(os.path.dirname(os.path.abspath(__file__)))
-SIM = os.path.join(VERIF, "sim")
-REPO = "/repo"
+# VERIF_SIM_DIR / VERIF_REPLAYS_DIR exist for testing the checks against a scratch copy of the repository
+# (tools/eval_mutant.py); the registered commands never set them and always build from /repo.
+SIM = os.environ.get("VERIF_SIM_DIR") or os.path.join(VERIF, "sim")
+REPO = os.environ.get("VERIF_REPO_DIR") or "/repo"
 EVIDENCE = os.path.join(VERIF, "evidence")
-REPLAYS = os.path.join(VERIF, "replays")
+REPLAYS = os.environ.get("VERIF_REPLAYS_DIR") or os.path.join(VERIF, "replays")
 KNOWN_FINDINGS = os.path.join(VERIF, "known_findings.json")
 
 JOB_TIMEOUT = 60.0
